@@ -305,3 +305,41 @@ def late_binding_closures(index: RepoIndex, rep, rule: str, files) -> None:
                                       f'called: every element uses the last value',
                                       'lambda: no late-bound comprehension variable')
     rep.holds(rule, 'closures made in loops', f'{n_sites} in {len(list(files))} file(s)')
+
+
+def records_as_given(index: RepoIndex, rep, rule: str, names=('State', 'Observation')) -> None:
+    """State(grid, agent) and Observation(grid, agent) are records: what a component builds is
+    what the environment, the spaces and the representations see.  Neither class rewrites its
+    fields on construction: no `__post_init__` / `__new__` / `__setattr__` that stores a
+    field, and a hand-written `__init__` stores its parameters themselves."""
+    for rel, cname in (('gym_gridverse/state.py', 'State'),
+                       ('gym_gridverse/observation.py', 'Observation')):
+        if cname not in names:
+            continue
+        cls = index.cls(rel, cname)
+        bad = []
+        for mname in ('__post_init__', '__new__', '__setattr__', '__init__'):
+            m = cls.methods.get(mname)
+            if m is None:
+                continue
+            params = {a.arg for a in m.node.args.args[1:] + m.node.args.kwonlyargs}
+            for n in ast.walk(m.node):
+                tgt = val = None
+                if isinstance(n, ast.Assign) and len(n.targets) == 1 and \
+                        isinstance(n.targets[0], ast.Attribute) and \
+                        src(n.targets[0].value) == 'self':
+                    tgt, val = n.targets[0].attr, n.value
+                if isinstance(n, ast.Call) and src(n.func) in (
+                        'object.__setattr__', 'setattr', 'super().__setattr__') and \
+                        len(n.args) >= 2 and isinstance(n.args[-2], ast.Constant):
+                    tgt, val = n.args[-2].value, n.args[-1]
+                if tgt in ('grid', 'agent'):
+                    if mname == '__init__' and isinstance(val, ast.Name) and val.id in params:
+                        continue
+                    bad.append((mname, n.lineno, src(n)[:80]))
+        rep.check(not bad, rule, rel, cname, cls.node.lineno,
+                  '; '.join(b[2] for b in bad)[:200] or f'{cname} stores its fields as given',
+                  f'{cname}.{bad[0][0] if bad else ""} rewrites a field on construction '
+                  f'(`{bad[0][2] if bad else ""}`): the {cname.lower()} the environment hands out '
+                  f'is not the one its components built (shape, cells or agent differ)',
+                  f'{cname} is a plain record')
